@@ -57,7 +57,7 @@ fn case(code: i64, p: &[i128], msg: &[i128]) -> (Vec<Vec<i128>>, Vec<Vec<i128>>)
     let (dn, b2, kk) = (Degree(n as u32), Base2K(h.b as u32), TorusPrecision((h.size * h.b) as u32));
     with_be!(h.be, BE, {
         let module: Module<BE> = Module::<BE>::new(if code == 19004 { 8 } else { n as u64 });
-        let mut sc: ScratchOwned<BE> = ScratchOwned::alloc(1 << 22);
+        let mut sc: ScratchOwned<BE> = garbage_scratch::<BE>(1 << 22);
         let clen = h.rout * h.size * n;
         let cell_words = (h.rout + 1) * h.size * n;
         if code == 19001 {
@@ -388,7 +388,7 @@ fn draw_to_slot(parent: &[i128], dnum: usize, rin: usize) -> Vec<i128> {
 
 pub fn exec(r: &Rec) -> Out {
     let r2 = r.clone();
-    guard(move || case(r2.code, &r2.ps, &r2.vs[0]).1)
+    guard(move || two_fills(|| case(r2.code, &r2.ps, &r2.vs[0]).1))
 }
 
 fn log2_ceil(x: usize) -> usize { if x <= 1 { 0 } else { (usize::BITS - (x - 1).leading_zeros()) as usize } }
